@@ -79,6 +79,9 @@ pub fn run(rep: &mut Report, thorough: bool) {
     rep.rule = "for each configuration (MAC, self-IP set, deny set): destination MACs = authorised set + every single-bit flip of every member + strangers; EtherType all 65536 values; IP protocol / next header all 256 values; source IPs = deny set + every single-bit flip; destination IP / ARP target / ND target = self set + every single-bit flip + multicast/broadcast forms; each over every reply-eliciting base frame; judged by the reference predicate of the statement and the reply-source invariant; eliciting frames include a STUN CHANGE-REQUEST (change-IP + change-port); configurations include each list alone".into();
     rep.assumptions = vec!["frames shorter than an Ethernet header must not be answered (nothing can be addressed to the responder)".into()];
     for (ci, cfg) in cfgs(thorough).iter().enumerate() {
+        if rep.secondary && ci != 0 && ci != 3 {
+            continue;
+        }
         let tag = format!("cfg{}", ci);
         // (a) destination MACs
         let mut macs: Vec<Mac> = authorised_macs(cfg).into_iter().collect();
